@@ -181,9 +181,37 @@ func depthD(d D) int {
 	return m + 1
 }
 
+// Shared pointers: a "ptr" descriptor with share = true is built once per
+// top-level build and the SAME pointer is used wherever the descriptor
+// occurs again (aliasing; finite, but it looks cyclic to a naive walker).
+var (
+	buildDepth int
+	shareMemo  map[string]reflect.Value
+)
+
 // build constructs the real Go value a descriptor denotes. An invalid
 // reflect.Value stands for the untyped nil.
 func build(d D) (reflect.Value, error) {
+	buildDepth++
+	if buildDepth == 1 {
+		shareMemo = map[string]reflect.Value{}
+	}
+	defer func() { buildDepth-- }()
+	if dstr(d, "g") == "ptr" && dbool(d, "share") && !dbool(d, "nil") {
+		k := canon(d)
+		if p, ok := shareMemo[k]; ok {
+			return p, nil
+		}
+		p, err := build1(d)
+		if err == nil {
+			shareMemo[k] = p
+		}
+		return p, err
+	}
+	return build1(d)
+}
+
+func build1(d D) (reflect.Value, error) {
 	switch g := dstr(d, "g"); g {
 	case "nil":
 		return reflect.Value{}, nil
